@@ -298,8 +298,11 @@ def run_history(sc, kind, unix, rng, hidx):
     # every fifth history: a client connects at the very moment close() is called (the thread that takes it off the listener is
     # held up for a moment, see RV_ACCEPT_PAUSE): whatever close() and the accept loop make of it, a closed server serves nobody
     late_connect = hidx % 5 == 2 and kind in ("threaded", "threadpool") and not auth
+    # forking servers, every fifth history: the fork for the second client fails (EAGAIN). Whether the server survives that is not
+    # the subject here; what it still holds of that client afterwards is
+    fork_fail = kind == "forking" and hidx % 5 == 1 and not auth
     try:
-        sp = rn.ServerProc(kind, unix=unix, auth=auth, accept_pause=late_connect)
+        sp = rn.ServerProc(kind, unix=unix, auth=auth, accept_pause=late_connect, fork_fail="2" if fork_fail else None)
     except rn.ChildError as e:
         sc.inconclusive("could not start %s/%s: %s" % (kind, transport, str(e)[:300]))
         return
@@ -319,12 +322,26 @@ def run_history(sc, kind, unix, rng, hidx):
         c1 = [Client(sp, modes1[i], i) for i in range(n1)]
         clients += c1
         for op, i in ops:
-            if op == "connect":
-                c1[i].connect()
-            elif op == "call":
-                c1[i].call(rng)
-            else:
-                c1[i].leave(op)
+            if fork_fail and op != "connect" and not c1[i].connected:
+                continue
+            try:
+                if op == "connect":
+                    c1[i].connect()
+                elif op == "call":
+                    c1[i].call(rng)
+                else:
+                    c1[i].leave(op)
+            except Exception:
+                if not fork_fail:
+                    raise
+                c1[i].connected = c1[i].connected and c1[i].sock is not None
+                c1[i].errors[:] = []          # the client whose fork failed (or, if the server went down with it, everyone after)
+        if fork_fail:
+            for c in c1:
+                c.errors[:] = []
+                if c.connected:
+                    c.leave("abrupt")
+            sc.count("histories_with_a_failed_fork")
         sc.beat()
         desc1 = tuple((op, modes1[i]) for op, i in ops)
         wit = dict(kind=kind, transport=transport, auth=auth, phase1=[(op, i, modes1[i]) for op, i in ops])
@@ -337,6 +354,9 @@ def run_history(sc, kind, unix, rng, hidx):
         for c in c1:
             for e in c.errors:
                 sc.inconclusive("%s/%s history %d: client call failed before close: %s" % (kind, transport, hidx, e[:200]))
+        if fork_fail:
+            sc.case((kind, transport, "fork-failure", desc1), nontrivial=True)
+            return
         # ---------------------------------------------------------------- phase 2: some stay
         n2 = rng.randrange(1, 4 if slow else 7)
         c2 = [Client(sp, rng.choice(["good", "good", "raw"]), 100 + i) for i in range(n2)]
